@@ -71,20 +71,92 @@ theorem CInv.foldCbs_prefix (body : σ → Resume → Burst ℚ σ) (fuel : Nat)
     (l : LoopSt ℚ σ), g.rem = pre ++ post → g.run = none → g.lv = false → g.strict = false → Once.Inv g l.s →
     CInv g.rem g.e0 l.s → Once.SafeCbs body fuel g.e0 (pre ++ post) l → DomCbs body fuel g.e0 (pre ++ post) l →
     Once.Inv { g with rem := post } (pre.foldl (_root_.runCb body fuel g.e0) l).s ∧
-    CInv post g.e0 (pre.foldl (_root_.runCb body fuel g.e0) l).s
+    CInv post g.e0 (pre.foldl (_root_.runCb body fuel g.e0) l).s ∧
+    Mono (pre ++ post) l.s (pre.foldl (_root_.runCb body fuel g.e0) l).s
   | [], post, g, l, hrem, _, _, _, hi, hc, _, _ => by
     simp only [List.nil_append] at hrem
     have : ({ g with rem := post } : Once.Ghost) = g := by cases g; simp only at hrem; subst hrem; rfl
     rw [this]
     rw [hrem] at hc
-    exact ⟨hi, hc⟩
+    exact ⟨hi, hc, Mono.refl _ _⟩
   | cb :: pre, post, g, l, hrem, hg, hlv, hst, hi, hc, hs, hd => by
     simp only [List.foldl_cons]
     simp only [List.cons_append] at hrem hs hd
-    obtain ⟨h1, _⟩ := CInv.runCb body fuel l cb (pre ++ post) hrem hg hi hc hs.1 hd.1
+    obtain ⟨h1, m1⟩ := CInv.runCb body fuel l cb (pre ++ post) hrem hg hi hc hs.1 hd.1
     have hi1 := Once.Inv.runCb body fuel l cb (pre ++ post) hrem hg (fun h => by rw [hlv] at h; cases h) hi hs.1
       (fun h => by rw [hst] at h; cases h)
-    exact CInv.foldCbs_prefix body fuel pre post { g with rem := pre ++ post } _ rfl hg hlv hst hi1 h1 hs.2 hd.2
+    obtain ⟨i2, h2, m2⟩ :=
+      CInv.foldCbs_prefix body fuel pre post { g with rem := pre ++ post } _ rfl hg hlv hst hi1 h1 hs.2 hd.2
+    exact ⟨i2, h2, m1.seq m2 (fun c h => List.mem_cons_of_mem _ h) (EvMono.krel.runCb body fuel g.e0 l cb)⟩
+
+/-- the hypotheses on a callback list split along `++` -/
+theorem safeCbs_append (body : σ → Resume → Burst ℚ σ) (fuel : Nat) (e : EvId) : ∀ (a b : List Cb) (l : LoopSt ℚ σ),
+    Once.SafeCbs body fuel e (a ++ b) l → Once.SafeCbs body fuel e b (a.foldl (_root_.runCb body fuel e) l)
+  | [], _, _, h => h
+  | _ :: a, b, _, h => safeCbs_append body fuel e a b _ h.2
+
+theorem domCbs_append (body : σ → Resume → Burst ℚ σ) (fuel : Nat) (e : EvId) : ∀ (a b : List Cb) (l : LoopSt ℚ σ),
+    DomCbs body fuel e (a ++ b) l → DomCbs body fuel e b (a.foldl (_root_.runCb body fuel e) l)
+  | [], _, _, h => h
+  | _ :: a, b, _, h => domCbs_append body fuel e a b _ h.2
+
+/-- within a step nothing becomes processed: an event with a callback list keeps one -/
+def Unproc (s s' : KState ℚ σ) : Prop := ∀ e, (s.ev e).cbs ≠ none → (s'.ev e).cbs ≠ none
+
+theorem Unproc.of_setEv (s : KState ℚ σ) (e : EvId) (x : EvRec ℚ) (h : (s.ev e).cbs ≠ none → x.cbs ≠ none) :
+    Unproc s (s.setEv e x) := by
+  intro e' he'
+  rw [KState.ev_setEv]; split
+  · rename_i hc; rw [hc.1] at he'; exact h he'
+  · exact he'
+
+theorem Unproc.of_push (s s' : KState ℚ σ) (x : EvRec ℚ) (h : s'.events = s.events.push x) : Unproc s s' := by
+  intro e he
+  have hlt := Once.lt_of_cbs s e he
+  have : s'.ev e = s.ev e := by simp only [KState.ev, h, getD_push]; rw [if_neg (Nat.ne_of_lt hlt)]
+  rw [this]; exact he
+
+theorem Unproc.of_events {s s' : KState ℚ σ} (h : s'.events = s.events) : Unproc s s' := by
+  intro e he
+  have : s'.ev e = s.ev e := by simp [KState.ev, h]
+  rw [this]; exact he
+
+theorem Unproc.krel : KRel (Unproc (σ := σ)) where
+  refl := fun _ _ h => h
+  trans := fun h12 h23 e h => h23 e (h12 e h)
+  emit _ _ := of_events rfl
+  active _ _ := of_events rfl
+  shared _ _ := of_events rfl
+  setProc _ _ _ := of_events rfl
+  schedule _ _ _ _ _ _ := of_events rfl
+  newEv s r _ := of_push s _ r rfl
+  newLabelled s r _ := of_push s _ _ rfl
+  newReq s r _ _ _ := of_push s _ _ rfl
+  setOut s e o := of_setEv s e _ (fun h => h)
+  defuse s e := of_setEv s e _ (fun h => h)
+  bumpCount s e := of_setEv s e _ (fun h => h)
+  setUsage s e := of_setEv s e _ (fun h => h)
+  eraseCb s e cb := of_setEv s e _ (fun h => by
+    cases hc : (s.ev e).cbs with
+    | none => exact absurd hc h
+    | some L => simp)
+  addCb s e cb _ := by
+    unfold KState.addCb
+    exact of_setEv s e _ (fun h => by
+      cases hc : (s.ev e).cbs with
+      | none => exact absurd hc h
+      | some L => simp)
+  eraseUser _ _ _ := of_events rfl
+  addUser _ _ _ _ _ := of_events rfl
+  addLevel _ _ _ _ _ := of_events rfl
+  subLevel _ _ _ _ _ := of_events rfl
+  addItem _ _ _ _ _ := of_events rfl
+  tailItems _ _ := of_events rfl
+  eraseItem _ _ _ := of_events rfl
+  dropPutQ _ _ _ := of_events rfl
+  dropGetQ _ _ _ := of_events rfl
+  enqPut _ _ _ _ := of_events rfl
+  enqGet _ _ _ _ := of_events rfl
 
 /-! ## one step, whole runs -/
 
